@@ -117,6 +117,7 @@ func TestMain(m *testing.M) {
 	isolate.MaybeWorker()
 	code := m.Run()
 	isolate.Shutdown()
+	ev.Note("worker restarts: %d; verdicts (death / watchdog) that did not reproduce on a fresh worker and were therefore not counted: %d", isolate.Restarts, isolate.Flaky)
 	ev.Flush()
 	os.Exit(code)
 }
